@@ -1,6 +1,6 @@
 """C10 - a failed or interrupted pull never publishes a file, and never a partial one (src/value_stream.rs)."""
 from analysis.flow import must_cross, return_points, term_pt, trace_op
-from analysis.guards import facts_at, field_writes
+from analysis.guards import facts_at, field_writes, struct_constructions
 from analysis.mir import callee_matches, op_place
 from analysis.sym import Sym, render, is_call, const_val, walk
 from rules.common import has_cmp, option_fact, texts, blocks_assigning_variant, disjunct_facts, ok_fact, blocks_between, ok_exits
@@ -174,10 +174,27 @@ def run(facts, R):
 
     # ---------------- commit-order + provenance for each commit site ----------------------------------
     summaries = {}
+    # a guard may travel from the pull to its commit inside a small handle struct (`StagedFile { guard, final_path, .. }`, committed by
+    # `publish(self)`): the commit is then judged where the handle is built - that is where the pull's result is at hand
+    work = []
     for b, i, t in commits:
         sym = Sym(b)
         g = sym.op(t["args"][0])
         dest = sym.op(t["args"][1])
+        if g[0] == "field" and g[1][0] == "arg" and dest[0] == "field" and dest[1] == g[1]:
+            hty = b.local_ty(g[1][1]).replace("&mut ", "").lstrip("&").split("<")[0]
+            cons_ = [c_ for c_ in struct_constructions(facts, hty)] if hty in facts.adts and hty.startswith("value_stream::") else []
+            if cons_:
+                for cb, ci, cj, cst in cons_:
+                    cs_ = Sym(cb)
+                    ops_ = dict(zip(cst["rv"]["fields"], cst["rv"]["ops"]))
+                    if g[2] in ops_ and dest[2] in ops_:
+                        work.append((cb, ci, {"args": [ops_[g[2]], ops_[dest[2]]], "span": cst.get("span"), "callee": t["callee"]}, cs_.op(ops_[g[2]]), cs_.op(ops_[dest[2]])))
+                R.note("commit of a guard carried in %s judged at the %d construction(s) of the handle" % (hty, len(cons_)))
+                continue
+        work.append((b, i, t, g, dest))
+    for b, i, t, g, dest in work:
+        sym = Sym(b)
         fs = facts_at(b, sym, facts, i)
         src = None
         for x in walk(g):
@@ -219,7 +236,18 @@ def run(facts, R):
             cdef = clos[0][1][len("closure:"):]
             caps = dict(clos[0][3])
             tp = caps.get("tmp_path")
-            same = tp is not None and is_call(tp, VS + "temp_sibling") and tp[2][0] == dest
+
+            def _dirmate(x_, d_):
+                # x_ is d_ itself, or d_'s directory with another file name (`d.with_file_name(..)`): a sibling either way
+                def _own(e_):
+                    while e_[0] == "call" and len(e_[2]) == 1 and e_[1].rsplit("::", 1)[-1] in ("to_path_buf", "as_ref", "deref", "clone", "to_owned", "as_path", "borrow", "from", "into"):
+                        e_ = e_[2][0]
+                    return e_
+                if _own(x_) == _own(d_):
+                    return True
+                x2 = _own(x_)
+                return is_call(x2, "with_file_name") and len(x2[2]) == 2 and _own(x2[2][0]) == _own(d_)
+            same = tp is not None and is_call(tp, VS + "temp_sibling") and (tp[2][0] == dest or (getattr(b, "changed", True) and _dirmate(tp[2][0], dest)))
             R.check(same, "who-may-publish", b.path, "temp is sibling of destination",
                     "consume closure writes to %s but commit publishes onto %s" % (render(tp) if tp else None, render(dest)), t.get("span"),
                     "create(temp_sibling(p)) ... commit(p)")
